@@ -90,9 +90,15 @@ func main() {
 		}
 	}
 	var reports []report_
+	// two phases: every package is parsed and type-checked on the pristine sources first (the source importer must be able
+	// to type-check the module's own packages when they are imported, which it cannot once they import the harness),
+	// then instrumented in the given order
+	var loaded []*pkgCtx
 	for _, dir := range flag.Args() {
-		r := instrument(filepath.Join(*root, dir), dir, mut)
-		reports = append(reports, r)
+		loaded = append(loaded, load(filepath.Join(*root, dir), dir))
+	}
+	for _, p := range loaded {
+		reports = append(reports, p.process(mut))
 	}
 	if *methods != "" {
 		b, _ := json.Marshal(mut)
@@ -120,7 +126,7 @@ type pkgCtx struct {
 	seq    int
 }
 
-func instrument(dir, rel string, mut map[string]bool) report_ {
+func load(dir, rel string) *pkgCtx {
 	ctx := build.Default
 	ctx.BuildTags = append(ctx.BuildTags, "verif")
 	bp, err := ctx.ImportDir(dir, 0)
@@ -154,6 +160,11 @@ func instrument(dir, rel string, mut map[string]bool) report_ {
 	for _, f := range p.files {
 		ast.Inspect(f, func(n ast.Node) bool { return p.recordParents(n) })
 	}
+	return p
+}
+
+func (p *pkgCtx) process(mut map[string]bool) report_ {
+	fset := p.fset
 	if *mode == "trace" {
 		p.traceMode()
 	} else {
@@ -171,7 +182,7 @@ func instrument(dir, rel string, mut map[string]bool) report_ {
 			fatal("%v", err)
 		}
 	}
-	return rep
+	return *p.rep
 }
 
 var stack []ast.Node
@@ -462,6 +473,45 @@ func (p *pkgCtx) syncMethodUse(id *ast.Ident) bool {
 	return pp == "sync" || pp == "sync/atomic" || strings.HasPrefix(pp, "verif/shim/")
 }
 
+// hasSyncField: t is (a pointer to) a struct with a field declared in sync / sync/atomic - a monitor object that does
+// its own locking inside its methods.
+func hasSyncField(t types.Type) bool {
+	if p, ok := t.Underlying().(*types.Pointer); ok {
+		t = p.Elem()
+	}
+	st, ok := t.Underlying().(*types.Struct)
+	if !ok {
+		return false
+	}
+	for i := 0; i < st.NumFields(); i++ {
+		if isSyncType(st.Field(i).Type()) {
+			return true
+		}
+	}
+	return false
+}
+
+// monitorMethodUse: id is a variable of a struct type that carries its own lock, used as the receiver of one of its
+// methods. The method locks inside; logging an access at the call site (outside the lock) would report a race between
+// two correctly synchronised calls. What the method does to the variable is seen by the value scan, which runs before
+// every release and attributes a change to the thread that holds the lock.
+func (p *pkgCtx) monitorMethodUse(id *ast.Ident) bool {
+	top := p.chainTop(id)
+	if top != ast.Expr(id) {
+		return false
+	}
+	sel, ok := p.parent[top].(*ast.SelectorExpr)
+	if !ok || sel.X != top {
+		return false
+	}
+	s := p.info.Selections[sel]
+	if s == nil || s.Kind() != types.MethodVal {
+		return false
+	}
+	obj := p.info.Uses[id]
+	return obj != nil && hasSyncField(obj.Type())
+}
+
 func methodKey(fn *types.Func) string {
 	sig := fn.Type().(*types.Signature)
 	r := sig.Recv().Type()
@@ -643,6 +693,11 @@ func (p *pkgCtx) schedMode(mut map[string]bool) {
 				return true // initialisation time: single-threaded by the language
 			}
 			if p.syncMethodUse(id) {
+				return true
+			}
+			if p.monitorMethodUse(id) {
+				// no access is logged at the call site, but the variable is mutable state: watched by value
+				p.rep.NonFrozen[pkgVars[obj]] = append(p.rep.NonFrozen[pkgVars[obj]], fmt.Sprintf("%s: method call on a struct that carries its own lock", p.loc(id)))
 				return true
 			}
 			w, why := p.classify(id, mut)
@@ -1292,27 +1347,135 @@ func (p *pkgCtx) traceMode() {
 			p.insert(f.End(), "\nvar _ = vxtrace.B\n")
 		}
 	}
-	// external callees, attributed to the innermost instrumented block that contains the call
+	// external callees, attributed to the innermost instrumented block that contains the call; the value-bearing operands
+	// (receiver and arguments that are big integers, byte strings or integers) are handed to vxtrace.X right before the
+	// statement that makes the call, so that the monitor can tell a call on public values from a call on secrets
 	type extCall struct {
 		Site   uint32 `json:"site"`
 		Func   string `json:"func"`
 		Callee string `json:"callee"`
 		Loc    string `json:"loc"`
 		Text   string `json:"text"`
+		XSite  uint32 `json:"xsite"`
 	}
 	var exts []extCall
+	// operand text for vxtrace.X, "" when the type carries no value of interest, "?" when it cannot be evaluated twice
+	var simple func(e ast.Expr) bool
+	simple = func(e ast.Expr) bool {
+		switch x := e.(type) {
+		case *ast.Ident:
+			return true
+		case *ast.BasicLit:
+			return true
+		case *ast.SelectorExpr:
+			if sel := p.info.Selections[x]; sel != nil && sel.Kind() != types.FieldVal {
+				return false
+			}
+			return simple(x.X)
+		case *ast.ParenExpr:
+			return simple(x.X)
+		case *ast.StarExpr:
+			return simple(x.X)
+		case *ast.UnaryExpr:
+			return x.Op == token.AND && simple(x.X)
+		case *ast.IndexExpr:
+			return simple(x.X) && simple(x.Index)
+		case *ast.SliceExpr:
+			return simple(x.X) && (x.Low == nil || simple(x.Low)) && (x.High == nil || simple(x.High)) && x.Max == nil
+		}
+		return false
+	}
+	operand := func(e ast.Expr) string {
+		tv, ok := p.info.Types[e]
+		if !ok {
+			return ""
+		}
+		t := tv.Type
+		isBig := func(t types.Type) bool {
+			n, ok := t.(*types.Named)
+			return ok && n.Obj().Pkg() != nil && n.Obj().Pkg().Path() == "math/big" && n.Obj().Name() == "Int"
+		}
+		fresh := false
+		if c, ok := e.(*ast.CallExpr); ok {
+			if id, ok := c.Fun.(*ast.Ident); ok && (id.Name == "new" || id.Name == "make") {
+				fresh = true
+			}
+		}
+		txt := p.text(e)
+		switch u := t.(type) {
+		case *types.Pointer:
+			if isBig(u.Elem()) {
+				if fresh {
+					return ""
+				}
+				if !simple(e) {
+					return `"?"`
+				}
+				return txt
+			}
+			return ""
+		case *types.Named:
+			if isBig(u) {
+				if !simple(e) || !tv.Addressable() {
+					return `"?"`
+				}
+				return "&" + txt
+			}
+		}
+		switch u := t.Underlying().(type) {
+		case *types.Slice:
+			if b, ok := u.Elem().Underlying().(*types.Basic); ok && b.Kind() == types.Uint8 {
+				if fresh {
+					return ""
+				}
+				if !simple(e) {
+					return `"?"`
+				}
+				return txt
+			}
+		case *types.Array:
+			if b, ok := u.Elem().Underlying().(*types.Basic); ok && b.Kind() == types.Uint8 {
+				if !simple(e) || !tv.Addressable() {
+					return `"?"`
+				}
+				return txt + "[:]"
+			}
+		case *types.Basic:
+			if u.Info()&types.IsInteger != 0 && tv.Value == nil {
+				if !simple(e) {
+					return `"?"`
+				}
+				switch u.Kind() {
+				case types.Int, types.Int64, types.Uint64, types.Uint, types.Uint32, types.Int32, types.Uint8:
+					if _, named := t.(*types.Named); named {
+						return "int64(" + txt + ")"
+					}
+					return txt
+				}
+				return "int64(" + txt + ")"
+			}
+		}
+		return ""
+	}
+	skipPkg := map[string]bool{"math/bits": true, "crypto/subtle": true, "errors": true, "fmt": true, "encoding/binary": true, "sync": true, "sync/atomic": true, "unsafe": true}
+	usedX := map[*ast.File]bool{}
 	for _, f := range p.files {
+		f := f
 		ast.Inspect(f, func(n ast.Node) bool {
 			call, ok := n.(*ast.CallExpr)
 			if !ok {
 				return true
 			}
 			var obj types.Object
+			var recv ast.Expr
 			switch fn := call.Fun.(type) {
 			case *ast.Ident:
 				obj = p.info.Uses[fn]
 			case *ast.SelectorExpr:
 				obj = p.info.Uses[fn.Sel]
+				if sel := p.info.Selections[fn]; sel != nil && sel.Kind() == types.MethodVal {
+					recv = fn.X
+				}
 			}
 			fobj, ok := obj.(*types.Func)
 			if !ok || fobj.Pkg() == nil || fobj.Pkg() == p.pkg || strings.HasPrefix(fobj.Pkg().Path(), "github.com/bilibili/smgo") {
@@ -1333,9 +1496,75 @@ func (p *pkgCtx) traceMode() {
 					break
 				}
 			}
-			exts = append(exts, extCall{site, p.rep.Package + ":" + fn, fobj.FullName(), p.loc(call), strings.Join(strings.Fields(p.text(call)), " ")})
+			var xsite uint32
+			if !skipPkg[fobj.Pkg().Path()] && p.listStmt(call) != nil {
+				var ops []string
+				if recv != nil {
+					if o := operand(recv); o != "" {
+						ops = append(ops, o)
+					}
+				}
+				for _, a := range call.Args {
+					if o := operand(a); o != "" {
+						ops = append(ops, o)
+					}
+				}
+				// an operand that is declared by the very statement that makes the call (if v := f(); g(v) ...) cannot be read
+				// in front of that statement
+				st := p.listStmt(call)
+				declaredHere := func(e ast.Expr) bool {
+					found := false
+					ast.Inspect(e, func(n ast.Node) bool {
+						if id, ok := n.(*ast.Ident); ok {
+							if obj := p.info.Uses[id]; obj != nil && obj.Pos() >= st.Pos() && obj.Pos() < st.End() {
+								found = true
+							}
+						}
+						return !found
+					})
+					return found
+				}
+				k := 0
+				if recv != nil && operand(recv) != "" {
+					if declaredHere(recv) {
+						ops[k] = `"?"`
+					}
+					k++
+				}
+				for _, a := range call.Args {
+					if operand(a) != "" {
+						if declaredHere(a) {
+							ops[k] = `"?"`
+						}
+						k++
+					}
+				}
+				idtxt := newSite(call, "ext")
+				delete(blockID, call) // a call is not a block: inner calls keep their enclosing block
+				fmt.Sscanf(idtxt, "%d", &xsite)
+				p.accBefore(call, fmt.Sprintf("vxtrace.X(%s%s); ", idtxt, func() string {
+					if len(ops) == 0 {
+						return ""
+					}
+					return ", " + strings.Join(ops, ", ")
+				}()))
+				usedX[f] = true
+			}
+			exts = append(exts, extCall{site, p.rep.Package + ":" + fn, fobj.FullName(), p.loc(call), strings.Join(strings.Fields(p.text(call)), " "), xsite})
 			return true
 		})
+	}
+	for f := range usedX {
+		already := false
+		for _, ins := range p.edits[f].ins {
+			if strings.Contains(ins.text, "import vxtrace") {
+				already = true
+			}
+		}
+		if !already {
+			p.insert(f.Name.End(), "\nimport vxtrace \"verif/trace\"\n")
+			p.insert(f.End(), "\nvar _ = vxtrace.B\n")
+		}
 	}
 	if len(p.files) > 0 {
 		b, _ := json.Marshal(exts)
